@@ -12,7 +12,7 @@ def scenarios(ctx, rng):
     cases = []
     n = 36 if ctx.tier == "quick" else 900
     kinds = ["basic", "update_upstream", "update_listen", "traffic_in_flight", "parked_then_half_close", "stop_during_dial", "reset_enables",
-             "populate_replace", "many_connections", "populate_replace_disabled", "accept_failed"]
+             "populate_replace", "many_connections", "populate_replace_disabled", "accept_failed", "held_end_of_stream"]
     for i in range(n):
         g = i % 6
         b = T.port_base(g)
@@ -127,6 +127,20 @@ def scenarios(ctx, rng):
             add({"op": "recv", "id": "s1", "up": "c1", "n": 1, "ms": 2000}, ("ended",))
             if how2 == "delete":
                 add({"op": "bindcheck", "port": px}, ("ok",))
+        elif kind == "held_end_of_stream":
+            # a toxic that withholds the end of the stream (slow_close, reset_peer) sits between the proxy and one of the peers: taking the
+            # proxy down still terminates the connection at BOTH peers at once
+            stream = rng.choice(["upstream", "downstream"])
+            add(T.api("POST", "/proxies/p/toxics", {"type": rng.choice(["slow_close", "reset_peer"]), "stream": stream,
+                                                   "attributes": {"delay": 20000, "timeout": 20000}}), ("status", 200))
+            connect0 = [("c1", "s1")]
+            add({"op": "dial", "id": "c1", "addr": A1}, ("dial_ok",))
+            add({"op": "upaccept", "id": "s1", "up": "u1", "ms": 1500}, ("ok",))
+            how3 = rng.choice(["stop", "upstream", "populate"])
+            add(stop_req() if how3 == "stop" else (T.api("POST", "/proxies/p", {"upstream": U2}) if how3 == "upstream" else
+                                                    T.api("POST", "/populate", [{"name": "p", "listen": A1, "upstream": U2}])), ("status_ok",))
+            add({"op": "recv", "id": "c1", "up": "s1", "n": 1, "ms": 2000}, ("ended",))
+            add({"op": "recv", "id": "s1", "up": "c1", "n": 1, "ms": 2000}, ("ended",))
         elif kind == "populate_replace":
             connect("c1", "s1")
             add(T.api("POST", "/populate", [{"name": "p", "listen": A1, "upstream": U2}]), ("status", 201))
